@@ -130,6 +130,13 @@ Record step_obs := {
 Definition row_eqb (r : row) (t : Z * Z * Z) : bool :=
   let '(l, n, s) := t in (lbl r =? l) && (nxt r =? n) && (stp r =? s).
 
+Fixpoint rows_eqb (l : list row) (t : list (Z * Z * Z)) : bool :=
+  match l, t with
+  | [], [] => true
+  | r :: l', x :: t' => row_eqb r x && rows_eqb l' t'
+  | _, _ => false
+  end.
+
 Definition one_step (mods : list modifier) (t0 : Z) (c : clk) (p : step_plan) : result (clk * (Z * list Z * list Z)) :=
   let ia := active c in
   let sn := if sn_mod p =? 0 then [] else filter (fun l => l mod (sn_mod p) =? sn_rem p) ia in
@@ -148,7 +155,7 @@ Fixpoint run_plans (mods : list modifier) (t0 : Z) (c : clk) (ps : list (step_pl
     match one_step mods t0 c p with
     | Ok (c2, (et, ia, ib)) =>
         (et =? o_ev_time o) && zlist_eqb ia (o_idx_a o) && zlist_eqb ib (o_idx_b o) &&
-        (T c2 =? o_T o) && (S c2 =? o_S o) && list_eqb row_eqb (rows c2) (o_rows o) && run_plans mods t0 c2 r
+        (T c2 =? o_T o) && (S c2 =? o_S o) && rows_eqb (rows c2) (o_rows o) && run_plans mods t0 c2 r
     | _ => false
     end
   end.
@@ -161,7 +168,7 @@ Definition check_clock (k : clock_case) : bool :=
   let c := {| T := t0; S := s0; E := e; m := m0; std := std0; rows := []; snooze := [] |} in
   let c0 := create (set_clk c (t0 - s0) s0 [] []) n in
   match step_forward (req_of mods t0 c0) c0 with
-  | Ok c1 => (T c1 =? o_T o0) && (S c1 =? o_S o0) && list_eqb row_eqb (rows c1) (o_rows o0) && run_plans mods t0 c1 ps
+  | Ok c1 => (T c1 =? o_T o0) && (S c1 =? o_S o0) && rows_eqb (rows c1) (o_rows o0) && run_plans mods t0 c1 ps
   | _ => false
   end.
 
